@@ -274,12 +274,16 @@ func coveredByCallers(c *core.Ctx, fn *ssa.Function, kind string, depth int) (bo
 }
 
 func c01CacheHonours(c *core.Ctx) {
-	for _, name := range []string{"c.GetTLSSecretPath", "c.GetCASecretPath", "c.GetPasswdSecretContent", "c.GetTerminatingPods"} {
-		fn := c.Fn("controller/services", name)
+	for _, x := range [][2]string{
+		{"controller/services", "c.GetTLSSecretPath"}, {"controller/services", "c.GetCASecretPath"}, {"controller/services", "c.GetPasswdSecretContent"}, {"controller/services", "c.GetTerminatingPods"},
+		{"controller/legacy", "k8scache.GetTLSSecretPath"}, {"controller/legacy", "k8scache.GetCASecretPath"}, {"controller/legacy", "k8scache.GetPasswdSecretContent"}, {"controller/legacy", "k8scache.GetTerminatingPods"},
+	} {
+		name := x[1]
+		fn := c.Fn(x[0], name)
 		if fn == nil {
 			continue
 		}
-		key := "controller/services." + name
+		key := x[0] + "." + name
 		var tracks []ssa.Instruction
 		for _, s := range core.Calls(fn, false) {
 			if s.Common().IsInvoke() && s.Common().Method.Name() == "TrackRefName" {
@@ -303,7 +307,7 @@ func c01CacheHonours(c *core.Ctx) {
 			a := t.(*ssa.Call).Call.Args[0]
 			c.Check(core.Key(a) == "track", key+"#arg", at(c, t), "links the caller's refs", "TrackRefName receives `"+core.Key(a)+"` instead of the caller's track refs")
 		}
-		if name == "c.GetTerminatingPods" {
+		if strings.HasSuffix(name, ".GetTerminatingPods") {
 			// every listed pod is tracked before the terminating filter
 			ok := false
 			for _, t := range tracks {
@@ -318,7 +322,7 @@ func c01CacheHonours(c *core.Ctx) {
 		n := 0
 		for _, s := range core.Calls(fn, false) {
 			cn := core.CalleeName(s.Common())
-			isRead := strings.HasSuffix(cn, ".getCertificate") || s.Common().IsInvoke() && s.Common().Method.Name() == "Get"
+			isRead := strings.HasSuffix(cn, ".getCertificate") || strings.HasSuffix(cn, ").GetCertificate") || s.Common().IsInvoke() && (s.Common().Method.Name() == "Get" || s.Common().Method.Name() == "GetCertificate")
 			if !isRead {
 				continue
 			}
@@ -338,7 +342,7 @@ func c01CacheHonours(c *core.Ctx) {
 				continue
 			}
 			l := sliceLeaves(c.Env, errv, 0)
-			if leavesContain(l, "getCertificate") || leavesContain(l, ".Get#") || leavesContain(l, "Client).Get") || leavesContain(l, "Reader).Get") {
+			if leavesContain(l, "getCertificate") || leavesContain(l, "GetCertificate") || leavesContain(l, ".Get#") || leavesContain(l, "Client).Get") || leavesContain(l, "Reader).Get") || leavesContain(l, "Lister).Get") {
 				w := core.MustPrecede(fn, isTrack, func(x ssa.Instruction) bool { return x == ssa.Instruction(ret) })
 				c.Check(w == nil, key+"#read-error-exit", at(c, ret), "the read-error exit is reached with the link recorded", "the error exit of the read is reachable without the link")
 			}
